@@ -50,7 +50,8 @@ def unsched_count(ty, src, n, t, c):
     body = unsched_prelude(n, t, src=src)
     body += f"    let r = {p.par(params_str(t, c))}.count();\n"
     body += f"    let e = {p.seq()}.count();\n"
-    body += '    assert!(r == e, "count differs from the sequential count");\n    kani::cover!(e == 1);\n    kani::cover!(model::drainer() == 1);\n'
+    wit = "e == 1" if ty not in ("E", "M") else f"e == {n}"   # E / M keep every element
+    body += f'    assert!(r == e, "count differs from the sequential count");\n    kani::cover!({wit});\n    kani::cover!(model::drainer() == 1);\n'
     name = cfg_name("c04_count_drain", ty, src, f"n{n}", f"t{t}", f"c{c}")
     return H(name, body, {"terminal": "count", "type": ty, "src": src, "n": n, "threads": t, "chunk": f"Exact({c})",
                           "schedule": "one worker (symbolic spawn index) drains the iterator-backed source, the others find it exhausted"}, unwind=n + 2, weight=n * 2)
